@@ -134,8 +134,11 @@ impl TraitHandler for DebugEnumHandler {
                                 has_fields = true;
                             }
                         } else {
+                            // a nameless tuple is printed with an empty name, like a nameless tuple struct
+                            let tuple_name = name_string.as_deref().unwrap_or("");
+
                             block_token_stream
-                                .extend(quote!(let mut builder = f.debug_tuple(#name_string);));
+                                .extend(quote!(let mut builder = f.debug_tuple(#tuple_name);));
 
                             for field in fields.named.iter() {
                                 let field_attribute = FieldAttributeBuilder {
@@ -254,8 +257,11 @@ impl TraitHandler for DebugEnumHandler {
                                 has_fields = true;
                             }
                         } else {
+                            // a nameless tuple is printed with an empty name, like a nameless tuple struct
+                            let tuple_name = name_string.as_deref().unwrap_or("");
+
                             block_token_stream
-                                .extend(quote!(let mut builder = f.debug_tuple(#name_string);));
+                                .extend(quote!(let mut builder = f.debug_tuple(#tuple_name);));
 
                             for (index, field) in fields.unnamed.iter().enumerate() {
                                 let field_attribute = FieldAttributeBuilder {
